@@ -329,6 +329,15 @@ def ropt_plugin_optimizer() -> int:
     return _PluginOptimizer(parent_pid).run(fifo1, fifo2)
 
 
+_ARRAY_KEY: Final = "__ndarray__"
+
+
+def _decode_array(obj: dict[str, Any]) -> Any:  # noqa: ANN401
+    if _ARRAY_KEY in obj:
+        return np.array(obj[_ARRAY_KEY], dtype=obj["dtype"]).reshape(obj["shape"])
+    return obj
+
+
 class _JSONPipeCommunicator:
     DELIMITER = "--READY--"
 
@@ -379,14 +388,21 @@ class _JSONPipeCommunicator:
         if delimiter:
             self._read_buffer = remainder
             buffer = message.decode().strip()
-            return json.loads(buffer) if buffer else buffer
+            return json.loads(buffer, object_hook=_decode_array) if buffer else buffer
         return None
 
     def write(self, data: str | list[Any] | dict[str, Any]) -> bool:
         class NumpyEncoder(json.JSONEncoder):
             def default(self, obj: Any) -> Any:  # noqa: ANN401
                 if isinstance(obj, np.ndarray):
-                    return obj.tolist()
+                    # Keep the type and shape: values of optimizer options
+                    # are not converted back to arrays by the configuration,
+                    # and empty arrays would lose their dimensions:
+                    return {
+                        _ARRAY_KEY: obj.tolist(),
+                        "dtype": str(obj.dtype),
+                        "shape": list(obj.shape),
+                    }
                 if isinstance(obj, Path):
                     return str(obj)
                 if isinstance(obj, np.generic):
